@@ -259,3 +259,7 @@ func runLimited(cmd *exec.Cmd, limit int64) ([]byte, error) {
 	sh.Env = cmd.Env
 	return sh.CombinedOutput()
 }
+
+func getenv(k string) string { return os.Getenv(k) }
+
+func writeFileQuiet(path string, b []byte) { os.WriteFile(path, b, 0o644) }
